@@ -258,6 +258,19 @@ def primal_path(ctx):
         ok_edit = sk.ham_edit in ("h1", "chol")
         ctx.ob("SIB-1", f"{name}: the coupling enters only through the Hamiltonian edit", ok_edit,
                f"edit: {sk.ham_edit} {sk.ham_edit_detail[:60]}", fi)
+    # orbital relaxation is part of the differentiated function: when the driver asks for it, the wave_data the
+    # blocks see is trial.optimize(edited Hamiltonian) on every path -- a branch on the coupling (lax.cond, where)
+    # gives forward mode, evaluated at coupling 0, a different function than finite differences see
+    disp, problems = entries.driver_dispatch(p)
+    for (mode, rot, sr), (meth, amap) in sorted(disp.items()):
+        if mode == "2rdm" or not meth.startswith("propagate_phaseless_ad"):
+            continue
+        sk = entries.skeleton(p, p.func(f"sampling.sampler.{meth}"))
+        ctx.ob("SIB-1", f"[ad_mode={mode}, orbital_rotation={rot}, do_sr={sr} -> {meth}]: the blocks see "
+               f"{'trial.optimize(edited Hamiltonian)' if rot else 'the unrelaxed trial'} unconditionally",
+               sk.ok_shape and sk.optimize == rot,
+               f"wave_data handed to the blocks: {'trial.optimize(...)' if sk.optimize else 'not a plain trial.optimize(...) call'}"
+               + ("; " + "; ".join(sk.problems) if sk.problems else ""), p.func(f"sampling.sampler.{meth}"))
 
 
 def run(ctx):
